@@ -3,9 +3,10 @@
 
   tools/mutcamp.py gen   <n> <seed>   # random single-line mutants of the library (scratch clone /tmp/mutrepo) -> /tmp/mw/m*.diff
   tools/mutcamp.py tests <jobs>       # keep the mutants under which the unedited test-suite still passes (scratch copies, removed)
-  tools/mutcamp.py check              # apply each survivor to /repo, run the mapped quick checks, undo; -> /tmp/mw/report.json
+  tools/mutcamp.py check [jobs]       # run the mapped quick checks against a private copy of the repository per survivor
+                                      # (FEMTO_REPO; /repo itself is not touched); -> /tmp/mw/report.json
 
-Scratch lives under /tmp/mw (outside /repo and /verif); /repo is restored with `git checkout -- .` after every mutant.
+Scratch lives under /tmp/mw (outside /repo and /verif) and is removed per mutant; /repo is never modified.
 """
 import concurrent.futures as cf
 import json
@@ -141,40 +142,52 @@ def tests(jobs):
     print(collections.Counter(m['tests'] for m in meta))
 
 
-def check():
-    meta = json.loads((MW / 'meta.json').read_text())
+def check_one(m):
+    """Run the mapped quick checks against a private copy of the repository with the mutant applied (FEMTO_REPO)."""
     verif = pathlib.Path(__file__).resolve().parent.parent
-    for m in meta:
-        if m.get('tests') != 'pass' or 'checks' in m:
-            continue
-        if subprocess.run(['git', '-C', '/repo', 'status', '--porcelain'], capture_output=True, text=True).stdout.strip():
-            print('repo not clean')
-            return
-        r = subprocess.run(['git', '-C', '/repo', 'apply', str(MW / f'{m["name"]}.diff')], capture_output=True, text=True)
+    wd = MW / ('r_' + m['name'])
+    shutil.rmtree(wd, ignore_errors=True)
+    shutil.copytree(CLONE, wd, ignore=shutil.ignore_patterns('.git'))
+    res = {}
+    try:
+        r = subprocess.run(['patch', '-p1', '-s', '-i', str(MW / f'{m["name"]}.diff')], cwd=wd, capture_output=True, text=True)
         if r.returncode != 0:
-            m['checks'] = 'noapply'
-            continue
-        res = {}
-        try:
-            for c in FILES[m['file']]:
-                r = subprocess.run(['./check', c, '--tier', 'quick'], cwd=verif, capture_output=True, text=True)
-                v = re.search(r'VIOLATION property=\S+ replay=(\S+)(.*)', r.stdout)
-                sig = None
-                if v:
-                    try:
-                        sig = json.loads(pathlib.Path(v.group(1)).read_text()).get('signature') or ('nfif' if 'no-failing' in v.group(2) else '?')
-                    except Exception:
-                        sig = '?'
-                res[c] = {'rc': r.returncode, 'sig': sig}
-                if r.returncode == 1:
-                    break       # one catching check is enough
-        finally:
-            subprocess.run(['git', '-C', '/repo', 'checkout', '--', '.'])
-        m['checks'] = res
-        m['caught'] = any(v['rc'] == 1 for v in res.values())
-        m['infra'] = any(v['rc'] == 2 for v in res.values())
-        print(m['name'], m['file'], m['func'], m['op'], 'CAUGHT' if m['caught'] else ('INFRA' if m['infra'] else 'missed'), res, flush=True)
-        (MW / 'meta.json').write_text(json.dumps(meta, indent=1))
+            return m['name'], 'noapply'
+        env = dict(os.environ, FEMTO_REPO=str(wd))
+        for c in FILES[m['file']]:
+            try:
+                r = subprocess.run(['./check', c, '--tier', 'quick'], cwd=verif, capture_output=True, text=True, env=env, timeout=2400)
+                rc, out = r.returncode, r.stdout
+            except subprocess.TimeoutExpired:
+                rc, out = -9, ''
+            v = re.search(r'VIOLATION property=\S+ replay=(\S+)(.*)', out)
+            sig = None
+            if v:
+                try:
+                    sig = json.loads(pathlib.Path(v.group(1)).read_text()).get('signature') or ('nfif' if 'no-failing' in v.group(2) else '?')
+                except Exception:
+                    sig = '?'
+            res[c] = {'rc': rc, 'sig': sig}
+            if rc == 1:
+                break       # one catching check is enough
+    finally:
+        shutil.rmtree(wd, ignore_errors=True)
+    return m['name'], res
+
+
+def check(jobs=5):
+    meta = json.loads((MW / 'meta.json').read_text())
+    todo = [m for m in meta if m.get('tests') == 'pass' and 'checks' not in m]
+    byname = {m['name']: m for m in meta}
+    with cf.ThreadPoolExecutor(jobs) as ex:
+        for name, res in ex.map(check_one, todo):
+            m = byname[name]
+            m['checks'] = res
+            if isinstance(res, dict):
+                m['caught'] = any(v['rc'] == 1 for v in res.values())
+                m['infra'] = any(v['rc'] not in (0, 1) for v in res.values())
+            print(name, m['file'], m['func'], m['op'], 'CAUGHT' if m.get('caught') else ('INFRA' if m.get('infra') else 'missed'), res, flush=True)
+            (MW / 'meta.json').write_text(json.dumps(meta, indent=1))
     (MW / 'report.json').write_text(json.dumps(meta, indent=1))
 
 
@@ -184,4 +197,4 @@ if __name__ == '__main__':
     elif sys.argv[1] == 'tests':
         tests(int(sys.argv[2]))
     elif sys.argv[1] == 'check':
-        check()
+        check(int(sys.argv[2]) if len(sys.argv) > 2 else 5)
